@@ -37,6 +37,33 @@ def run(pid, tier):
         out = os.path.join(d, "solve.ndjson")
         if vlib.record(V, ["spline", "solve", "--seed", seed, "--n", 160 if quick else 2500, "--out", out]):
             traces.append(out)
+    life = {}
+    if pid == "C15":
+        # the life of one spline object: every history of solve / refused solve / evaluate / copy / store-and-load calls
+        lmc = tlc("MC_SplineLife", cfg="MC_SplineLife_quick" if quick else "MC_SplineLife_thorough", tag=tag + "-lifemc", workers=4, xmx="3g", timeout=3000, coverage=True)
+        for v in lmc["violations"]:
+            V.add("model/life/" + v["name"], "MC_SplineLife %s violated: %s" % (v["name"], str(v["state"])[:500]), {"engine": "model", "state": str(v["state"])[:2000]})
+        lcases = os.path.join(d, "life.cases")
+        tlc("Gen_SplineLife", cfg="Gen_SplineLife_quick" if quick else "Gen_SplineLife_thorough", env={"OUT": lcases}, tag=tag + "-lifegen", timeout=900, xmx="3g")
+        lout = os.path.join(d, "life.ndjson")
+        life = {"model_states": lmc["distinct"], "histories": vlib.count_lines(lcases), "calls": 0, "action_coverage": coverage_summary(lmc["out"])}
+        if vlib.record(V, ["spline", "life", lcases, "--out", lout]):
+            lps, _ = vlib.split_file(lout, 8 if quick else 14, lout + ".s")
+            ljobs = [dict(module="Trace_SplineLife", env={"TRACE": p}, tag="%s-life%d" % (tag, j), cont=True, timeout=5000, xmx="3g") for j, p in enumerate(lps)]
+            for p, r in zip(lps, tlc_parallel(ljobs)):
+                E = vlib.read_ndjson(p)
+                life["calls"] += r.get("distinct", 0) - len(E)
+                seen = set()
+                for v in r["violations"]:
+                    i, l = int(v["state"]["i"]), int(v["state"]["l"])
+                    if i in seen:
+                        continue
+                    seen.add(i)
+                    e = E[i - 1]
+                    op = e["ops"][l - 1] if l >= 1 else {"op": "refs"}
+                    key = "spline/life/%s/%s/%s" % (e["kind"], e["via"], op["op"] + ("/" + op["why"] if "why" in op else ""))
+                    small = {"key": e["key"], "ops": e["ops"], "rejected_call": l, "observed": {k: (w if k != "c" else len(w)) for k, w in (e["steps"][l - 1].items() if l >= 1 else [])  if k != "ev"}}
+                    V.add(key, "history rejected by SplineLife.tla at call %d: %s" % (l, json.dumps(small)), {"engine": "spline", "module": "Trace_SplineLife", "event": e, "call": l}, src=p)
     rt = {"events": 0}
     if pid == "C14":
         rt = vlib.repo_test_traces()          # every outermost basis-function call made by the repository's own tests
@@ -101,6 +128,24 @@ def run(pid, tier):
                 raise vlib.ToolError("binding demonstration failed: %s" % r["violations"])
             bind = {"corrupted_event": e["key"], "rejected_event_index": 2, "uncorrupted_accepted": True}
             break
+    if pid == "C15" and life and not V.viol:
+        # a second demonstration, on a history: a refused call that (in the record) wiped the coefficients must be rejected
+        for e in vlib.read_ndjson(os.path.join(d, "life.ndjson")):
+            idx = [j for j, o in enumerate(e["ops"]) if o["op"] == "bad" and j >= 1 and e["steps"][j - 1]["has"]]
+            if not idx:
+                continue
+            bad = copy.deepcopy(e)
+            bad["steps"][idx[0]]["has"] = False
+            bad["steps"][idx[0]]["c"] = []
+            p = os.path.join(d, "corrupt_life.ndjson")
+            with open(p, "w") as f:
+                f.write(json.dumps(e) + "\n" + json.dumps(bad) + "\n")
+            r = tlc("Trace_SplineLife", env={"TRACE": p}, tag=tag + "-lifebind", cont=True, timeout=600)
+            rej = [v for v in r["violations"] if v["name"] == "Accepted"]
+            if not (len(rej) == 1 and rej[0]["state"].get("i") == "2" and rej[0]["state"].get("l") == str(idx[0] + 1)):
+                raise vlib.ToolError("binding demonstration (life) failed: %s" % r["violations"])
+            life["binding_demo"] = {"corrupted_history": e["key"], "corrupted_call": idx[0] + 1, "rejected_at_call": idx[0] + 1, "uncorrupted_accepted": True}
+            break
     sample = []
     if traces:
         e = vlib.read_ndjson(traces[1 if len(traces) > 1 else 0])[1]
@@ -109,8 +154,10 @@ def run(pid, tier):
     cov = dict(states=mc["distinct"], transitions=mc["generated"], action_coverage=coverage_summary(mc["out"]),
                traces_validated_against_impl=events, evaluations=evals, distinct_nontrivial=evals, repo_test_events=rt["events"],
                rule=("C14: every (basis index, derivative order 0..k+1, sample point) of every knot multiplicity pattern written by TLC (knots 0^k, interior 1..3 with multiplicities, 4^k; quarter points incl. both end points and two points outside) plus random real knot vectors of orders 1..6, the Dual / Dual2 entry points, and every outermost basis-function call the repository's own tests make (hooks on); "
-                     "C15: seeded solved splines of orders 2..6 (one site per coefficient, natural and clamped cubic layouts with repeated end sites and derivative conditions, least squares, mismatched counts) of all three spline types, each evaluated with all three abscissa types at derivative orders 0..3 and through mapped_value; 'evaluations' counts recorded values judged"),
+                     "C15: seeded solved splines of orders 2..6 (one site per coefficient, natural and clamped cubic layouts with repeated end sites and derivative conditions, least squares, mismatched counts) of all three spline types, each evaluated with all three abscissa types at derivative orders 0..3 and through mapped_value; 'evaluations' counts recorded values judged; object_histories: every sequence of up to 3 (thorough: 4) calls from {solve on either data set, exact or least squares; five refused solves; evaluate; copy; store and load} written by TLC from SplineLife.tla, run on the core spline of each type and on the Python-facing class, validated call by call (outcome, coefficients held bit for bit those of a fresh solve or none, evaluation refused exactly while unsolved)"),
                exhaustive=(pid == "C14"), binding_demo=bind, samples=sample)
+    if life:
+        cov["object_histories"] = life
     assumptions = ["the oracle is the piecewise polynomial of the Cox-de Boor recursion in the monomial basis, evaluated by TLC in doubles; agreement to 1e-9 of the sum of absolute monomial terms",
                    "interior knots of the solved-spline scenarios are simple, or repeated up to k-1 times in the Greville-based layouts, so that the generated site layouts are admissible (Schoenberg-Whitney)",
                    "spline order above 6 is not explored"]
